@@ -287,6 +287,11 @@ def _gen_jumps(o, s, case, regime, tol):
 def check_riemann_gen(case):
     o = Out()
     P = case['params']
+    # (the same left/right states have just been solved with another material model - a JWL explosive - in this process)
+    try:
+        cat.run(dict(case, params=dict(P, problem='JWL', A=8.545, B=0.205, R1=4.6, R2=1.35, r0=1.84, e0=0.0)), x=np.array([P['xd0']]))
+    except Exception:  # noqa  (the JWL problem itself may have no solution for these states)
+        pass
     s = cat.make_solver(case)
     cat.quiet(s, np.array([P['xd0']]), case['t'])
     o.label(str(s.soln_type), 'ul!=ur' if P['ul'] != P['ur'] else 'ul==ur')
